@@ -146,12 +146,13 @@ def _kind(k):
     return ("swapped" if k[0] else "same-axis") + ("/reversed" if k[1] else "")
 
 
-def _check_piece(fs, ft, swap, reverse, vector, t, e_orth, e_tang, along):
-    """fs: normal form of the halo piece, ft: of the kept interior of the target."""
+def _check_piece(fs, ft, swap, reverse, vector, t, e_orth, e_tang, along, target_sel=None):
+    """fs: normal form of the halo piece, ft: of the kept interior of the target (target_sel: what it must keep along the
+    padded dimension; default: its own n cells, both pre-padded halos replaced)."""
     pr = {}
     tdim = [p for n_, p in ft.names.items() if axis_of_dim(p) == AX]
-    if ft.sel[tdim[0]] != Sel(W, 1, N):
-        pr["R05.2"] = f"the target keeps {ft.sel[tdim[0]]!r} along the padded dimension; with links on both sides exactly its own n cells must remain"
+    if ft.sel[tdim[0]] != (target_sel or Sel(W, 1, N)):
+        pr["R05.2"] = f"the target keeps {ft.sel[tdim[0]]!r} along the padded dimension; " + ("with links on both sides exactly its own n cells must remain" if target_sel is None else f"expected {target_sel!r}")
     want_base = "PARTNER" if (vector and t["partner"]) else "MAIN"
     if fs.base != want_base:
         pr["R05.5" if vector else "R05.1"] = f"halo taken from the {'partner' if fs.base == 'PARTNER' else 'same'} component; a {'swapped' if swap else 'same-axis'} link requires the {'partner' if want_base == 'PARTNER' else 'same'} component"
@@ -255,6 +256,66 @@ def check_single_links(ctx, P, vectors, rule_of=None, floor_rule="R05.1"):
     ctx.floor(rule_of(floor_rule), "single-link cells evaluated", n_cells, 8 * len(vectors))
 
 
+def check_one_sided(ctx, P, rule_of=None):
+    """A halo requested on one side only, {AX: (0, w)} or {AX: (w, 0)}, on a face linked on both sides: the requested side is
+    still assembled from its neighbour (whether the other side is built and trimmed away again, or skipped, is immaterial)."""
+    from ..affsel import flatten_concat
+    from ..facepad import table_pair
+
+    rule_of = rule_of or (lambda r: r)
+    fi = P.func("padding:_pad_face_connections")
+    w = Lin.sym("w")
+    kinds = [(sw, rv) for sw in (False, True) for rv in (False, True)]
+    for side_right in (False, True):
+        widths = {AX: (Lin.of(0), w) if side_right else (w, Lin.of(0))}
+        problems = {}
+        n = 0
+        for kl in kinds:
+            for kr in kinds:
+                tag = f"left {_kind(kl)}, right {_kind(kr)}"
+                try:
+                    outs = run(P, table_pair(kl, kr), n_faces=3, prune=True, widths={AX: (0, w) if side_right else (w, 0)})
+                except Unmodelled as e:
+                    ctx.unknown(rule_of("R05.4"), f"one-sided request, {tag}", str(e))
+                    continue
+                for o in outs:
+                    if o.kind != "return":
+                        problems.setdefault("R05.4", f"raises {o.value} [{tag}]")
+                        continue
+                    try:
+                        faces, facedim, trim = face_parts(o.value)
+                        _, leaves = flatten_concat(faces[0], FACE, axis_of_dim)
+                        forms = [norm_form(p) for p in leaves]
+                    except Unmodelled as e:
+                        ctx.unknown(rule_of("R05.4"), f"one-sided request, {tag}", str(e))
+                        continue
+                    got_faces = [f.face for f in forms]
+                    nb = 2 if side_right else 1
+                    ok_shapes = ([1, 0, 2], [0, 2]) if side_right else ([1, 0, 2], [1, 0])
+                    if got_faces not in [list(x) for x in ok_shapes]:
+                        problems.setdefault("R05.4", f"only the {'upper' if side_right else 'lower'} halo of axis AX is requested, but face 0 is assembled from faces {got_faces}: the requested side is not taken from its neighbour (face {nb}) [{tag}]")
+                        continue
+                    swap, reverse = kr if side_right else kl
+                    t, e_orth, e_tang, _ = expected(side_right, swap, reverse)
+                    along = L if (kl[0] or kr[0]) else N
+                    e_tang = Sel(0, 1, along) if not t["tang_flip"] else Sel(0, 1, along).slice(SliceV(None, None, -1))
+                    fs = forms[-1] if side_right else forms[0]
+                    ft = forms[got_faces.index(0)]
+                    # if the side nobody asked for is skipped, the target keeps its basic pre-padding there (trimmed off at the end)
+                    tsel = None
+                    if len(got_faces) == 2:
+                        tsel = Sel(W, 1, N + W) if not side_right else Sel(0, 1, N + W)
+                    for k, v in _check_piece(fs, ft, swap, reverse, None, t, e_orth, e_tang, along, target_sel=tsel).items():
+                        problems.setdefault(k, v + f" [{tag}, halo requested on the {'upper' if side_right else 'lower'} side only]")
+                    n += 1
+        inst = f"halo requested on the {'upper' if side_right else 'lower'} side only, both sides linked"
+        if problems:
+            for rule, msg in sorted(problems.items()):
+                ctx.report(rule_of(rule), fi, inst, msg)
+        else:
+            ctx.ok(rule_of("R05.4"), inst, f"{n} link combinations: the requested side comes from its neighbour with the cells the orientation map demands")
+
+
 def _check_face0(chain, is_right, swap, reverse, vector, t, e_orth, e_tang, e_target):
     pr = {}
     padded_dim_axis = AX
@@ -330,6 +391,7 @@ def check(ctx):
     fi = P.func("padding:_pad_face_connections")
     check_link_cells(ctx, P, (None, "parallel", "tangential"))
     check_single_links(ctx, P, (None, "parallel", "tangential"))
+    check_one_sided(ctx, P)
     _check_prepad_and_trim(ctx, P, fi)
     _check_open_edges(ctx, P, fi)
 
